@@ -212,7 +212,7 @@ def edits_for(fl, rnd, spec):
 
 def run(ctx):
     fl = import_library()
-    nengines = ctx.scale(250, 3000)
+    nengines = ctx.scale(250, 10000)
     nops = ctx.scale(12, 30)
     ctx.rule = (
         f"every Engine.process/restart/copy call observed. Workload: {nengines} generated engines (lock-previous off; Linear/Function terms and rules "
